@@ -567,12 +567,30 @@ _BIN = {
     "max": lambda a, b: np.maximum(a, b),
     "arctan2": lambda a, b: np.arctan2(a, b),
     "isub": lambda a, b: a.copy().__isub__(b),
+    # NumPy array functions over operands that may live in different registries
+    "concat": lambda a, b: np.concatenate([np.atleast_1d(a), np.atleast_1d(b)]),
+    "stack": lambda a, b: np.stack([np.atleast_1d(a)[:1], np.atleast_1d(b)[:1]]),
+    "where": lambda a, b: np.where(np.asarray(np.atleast_1d(a)[:1]) > 0, np.atleast_1d(a)[:1], np.atleast_1d(b)[:1]),
+    "dot": lambda a, b: np.dot(np.atleast_1d(a)[:1], np.atleast_1d(b)[:1]),
+    "isclose": lambda a, b: np.isclose(a, b),
+    "ge": lambda a, b: a >= b,
+    "ne": lambda a, b: a != b,
+    "mod": lambda a, b: a % b,
+    "floordiv": lambda a, b: a // b,
+    "hypot": lambda a, b: np.hypot(a, b),
+    "minimum": lambda a, b: np.minimum(a, b),
+    "cross": lambda a, b: np.cross(np.resize(np.atleast_1d(a), 3), np.resize(np.atleast_1d(b), 3)),
 }
+
+
+_ARRAYS_ONLY = {"concat", "stack", "where", "dot", "isclose", "mod", "floordiv", "hypot", "minimum", "cross"}
 
 
 def op_binop(w, op):
     x = w.operand(op, "x")
     y = w.operand(op, "y")
+    if op["f"] in _ARRAYS_ONLY and not (isinstance(x, np.ndarray) and isinstance(y, np.ndarray)):
+        raise Skip  # a bare Unit operand: NumPy would build an object array of it
     return _BIN[op["f"]](x, y)
 
 
